@@ -5,6 +5,7 @@ from props.common import svt, gens, enc_failure_info, ref_decode_all, summarize_
 
 ID = "C01"
 LEVEL = "exploration"
+TAG_KEYS = True   # violation keys get the configuration feature tag appended (engine.feature_tag)
 RULE = ("Hypothesis draws (configuration override map within the accepted domain, content descriptor, N frames); each case is "
         "encoded with recon on, the packets are decoded by libaom 3.6.0 and dav1d 1.0.0 (dlopen) and every decoded picture is "
         "compared sample-for-sample with the recon buffer of the same display index. non-trivial = stream has >=1 inter-coded "
